@@ -2,7 +2,8 @@
 
   * engine/actions.py  WorkflowAction.schedule: the keys of the `wf_params = {...}` literal, that `notify`
     is copied from the parent when present, and that the loop moving undeclared input keys into
-    `wf_params` (and deleting them from the input) comes AFTER those assignments (so it can overwrite).
+    `wf_params` (and deleting them from the input) comes AFTER those assignments (so it can overwrite),
+    and the names for which that loop raises InputException instead (fix f99833f3).
   * rpc/clients.py     EngineClient.start_workflow: its keyword parameter names (a param of the same name
     makes `start_workflow(..., **wf_params)` a TypeError).
   * lang/v2/workbook.py the pattern a workflow name inside a workbook must match (which ASCII characters
@@ -37,6 +38,7 @@ def _schedule_facts(repo):
     rel = 'mistral/engine/actions.py'
     fn = _fn(_cls(_parse(repo, rel), 'WorkflowAction'), 'schedule')
     keys = None
+    reserved = []
     pos_dict = pos_notify = pos_loop = None
     root_expr = None
     for i, st in enumerate(fn.body):
@@ -71,7 +73,24 @@ def _schedule_facts(repo):
             cond = st.body[0]
             if ast.unparse(cond.test) != 'k not in wf_spec.get_input()' or cond.orelse:
                 raise ValueError('undeclared-input loop condition not understood: %s' % ast.unparse(cond.test))
-            body = [ast.unparse(b) for b in cond.body]
+            stmts = list(cond.body)
+            reserved = []
+            if stmts and isinstance(stmts[0], ast.If):
+                # the reserved-name check: `if k in (<names>): raise exc.InputException(...)`
+                chk = stmts.pop(0)
+                t = chk.test
+                ok = (isinstance(t, ast.Compare) and ast.unparse(t.left) == 'k' and len(t.ops) == 1
+                      and isinstance(t.ops[0], ast.In) and isinstance(t.comparators[0], (ast.Tuple, ast.List))
+                      and not chk.orelse and len(chk.body) == 1 and isinstance(chk.body[0], ast.Raise)
+                      and isinstance(chk.body[0].exc, ast.Call)
+                      and ast.unparse(chk.body[0].exc.func) == 'exc.InputException')
+                if not ok:
+                    raise ValueError('reserved-name check of the undeclared-input loop not understood: %s'
+                                     % ast.unparse(chk)[:200])
+                reserved = [ast.literal_eval(e) for e in t.comparators[0].elts]
+                if not all(isinstance(x, str) for x in reserved):
+                    raise ValueError('reserved names are not string literals')
+            body = [ast.unparse(b) for b in stmts]
             if body != ['wf_params[k] = v', 'del input_dict[k]']:
                 raise ValueError('undeclared-input loop does not move the key into wf_params: %r' % body)
             pos_loop = i
@@ -81,7 +100,7 @@ def _schedule_facts(repo):
         raise ValueError('WorkflowAction.schedule: order of assignments changed')
     if root_expr != 'parent_wf_ex.root_execution_id or parent_wf_ex.id':
         raise ValueError('root_execution_id expression not understood: %r' % root_expr)
-    return rel, keys
+    return rel, keys, reserved
 
 
 def _rpc_keywords(repo):
@@ -151,7 +170,7 @@ def _lean_char(c):
 
 
 def generate(repo):
-    r1, keys = _schedule_facts(repo)
+    r1, keys, reserved = _schedule_facts(repo)
     r2, kws = _rpc_keywords(repo)
     r3, rx, chars = _wb_names(repo)
     r4, vmode = _validation_default(repo)
@@ -160,6 +179,9 @@ namespace Mistral.Gen.SubWfFacts
 /-- keys of the `wf_params = {...}` literal of WorkflowAction.schedule; `notify` is copied after it and
     the loop that moves undeclared input keys into wf_params runs after both (checked by the translator) -/
 def scheduleBaseKeys : List String := [%s]
+/-- names for which the undeclared-input loop raises InputException instead of moving the key (empty when
+    the loop has no such check) -/
+def reservedInputKeys : List String := [%s]
 /-- parameter names of EngineClient.start_workflow (before **params) -/
 def rpcKeywords : List String := [%s]
 /-- pattern for a workflow name inside a workbook: %s
@@ -170,6 +192,7 @@ def validationMandatoryByDefault : Bool := %s
 end Mistral.Gen.SubWfFacts
 ''' % (r1, r2, r3, r4,
        ', '.join('"%s"' % k for k in keys),
+       ', '.join('"%s"' % k for k in reserved),
        ', '.join('"%s"' % k for k in kws),
        rx.replace('-/', '- /'),
        ', '.join(_lean_char(c) for c in chars),
